@@ -602,5 +602,41 @@ def rule_placeholders_reach_every_term(ctx):
     collect.check_replace_placeholders(ctx, "FLOW-SAN", ctx.facts)
 
 
-RULES = [rule_translation, rule_routing, rule_assembled, rule_fresh_rename, rule_definitions_survive_simplification, rule_break_preserves_meaning, rule_admission_shared,
+def rule_parser_defaults(ctx):
+    """What an omitted annotation means is decided by the parser, before any of the routing above sees the formula: a placeholder declared
+    without a sort is a general placeholder (`input: n.`), a formula annotated without a direction is universal (`spec: F.`).  The
+    translate_pair functions are evaluated on a missing and on a present optional pair."""
+    from .. import leaves as _lv, comp as _comp
+    fx = ctx.facts
+    _comp.use(fx)
+    P = "parsing::fol::sigma_0::pest::"
+    NONE, SOME = ("ctor", "Option::None", ()), ("ctor", "Option::Some", (("0", ("param", "$p")),))
+    b = fx.fn("translate_pair", impl_self=P + "PlaceholderDeclarationParser")
+    v = sym.Eval(fx, inline_depth=0).function(b)
+    sort = dict(v[2]).get("sort") if isinstance(v, tuple) and v[:2] == ("ctor", "PlaceholderDeclaration") else None
+    nexts = sorted({x for x in sym.subterms(sort) if isinstance(x, tuple) and x[:2] == ("call", "Iterator::next")}, key=repr) if sort else []
+    got = {}
+    if len(nexts) == 1:
+        for k_, val in (("missing", NONE), ("present", SOME)):
+            got[k_] = _comp.decide_literals(_comp.case_of_case(_lv.replace(sort, {nexts[0]: val})))
+    refs = sorted({n.get("callee_res") for n in walk(b["body"]) if n.get("k") == "Path" and str(n.get("callee_res", "")).endswith("::translate_pair")})
+    ok = got.get("missing") == ("ctor", "Sort::General", ()) and got.get("present") == ("call", "translate_pair", (("param", "$p"),)) \
+        and refs == ["<%sSortParser as parsing::PestParser>::translate_pair" % P]
+    ctx.add("TAB-DEFAULT", "placeholder-sort", ok, ctx.site(b), "a placeholder declared without `-> sort` is general; with one it has the sort the sort parser reads", construct=got)
+    d = [x for x in getattr(fx, "all_bodies", fx.body_list) if x["def_path"] == "<syntax_tree::fol::sigma_0::Direction as std::default::Default>::default"]
+    dv = sym.Eval(fx, inline_depth=0).function(d[0]) if len(d) == 1 else None
+    ctx.add("TAB-DEFAULT", "direction:default", dv == ("ctor", "Direction::Universal", ()), ctx.site(d[0]) if d else "src/syntax_tree/fol/sigma_0.rs",
+            "the default direction is universal", construct=dv)
+    a = fx.fn("translate_pair", impl_self=P + "AnnotatedFormulaParser")
+    ev = sym.Eval(fx, inline_depth=0)
+    av = ev.function(a)
+    dirs = {dict(x[2]).get("direction") for x in sym.subterms(av) if isinstance(x, tuple) and x[:2] == ("ctor", "AnnotatedFormula")}
+    flat_ = {y for t_ in dirs for y in sym.subterms(t_) if isinstance(y, tuple)} | set(dirs)
+    has_default = any(y[:2] == ("call", "Default::default") or y == ("ctor", "Direction::Universal", ()) for y in flat_ if isinstance(y, tuple))
+    others = sorted(y[1] for y in flat_ if isinstance(y, tuple) and y[:1] == ("ctor",) and y[1].startswith("Direction::") and y[1] != "Direction::Universal")
+    ctx.add("TAB-DEFAULT", "direction:omitted", len(dirs) == 1 and has_default and not others, ctx.site(a),
+            "a formula annotated without a direction gets the default direction (no other direction is written into it by the parser): %s" % others, construct=sorted(map(repr, dirs))[:2])
+
+
+RULES = [rule_parser_defaults, rule_translation, rule_routing, rule_assembled, rule_fresh_rename, rule_definitions_survive_simplification, rule_break_preserves_meaning, rule_admission_shared,
          rule_placeholders_reach_every_term]
